@@ -76,18 +76,25 @@ func TestC17(t *testing.T) {
 								}
 								// launch: the first launch of a fresh configuration; a second client built from
 								// the same *ClientConfig; the same client started again after a failed runner creation
-								for _, how := range []string{"first", "reuse", "retry", "cmd"} {
+								for _, how := range []string{"first", "reuse", "retry", "cmd", "cmdenv"} {
 									if how != "first" && len(sub) == 2 {
+										continue
+									}
+									if how == "cmdenv" && len(sub) == 0 {
 										continue
 									}
 									op := "env"
 									if how != "first" {
 										op += ":" + how
 									}
+									inCmd := how == "cmdenv" // the ambient variables sit in Cmd.Env (with SkipHostEnv that is the only way they travel)
+									if inCmd {
+										op = "env:cmd"
+									}
 									cells = append(cells, Cell{
 										Name:    fmt.Sprintf("host-half launch=%s legacy=%d versioned=%v AutoMTLS=%v mux=%v SkipHostEnv=%v group=%q ports=%v ambient=[%s]", how, vc.legacy, vc.vers, auto, mux, skip, grp, ports, an),
 										Plugin:  PluginConf{LegacyProto: "netrpc"},
-										Host:    HostConf{TLS: tls, Mux: mux, Launch: "runner", Legacy: vc.legacy, Versions: vc.vers, SkipHostEnv: skip, Group: grp, MinPort: ports[0], MaxPort: ports[1]},
+										Host:    HostConf{TLS: tls, Mux: mux, Launch: "runner", Legacy: vc.legacy, Versions: vc.vers, SkipHostEnv: skip, Group: grp, MinPort: ports[0], MaxPort: ports[1], AmbientInCmd: inCmd},
 										Ops:     []string{op},
 										Ambient: a,
 									})
@@ -201,13 +208,16 @@ func TestC17(t *testing.T) {
 		if c.Host.Group != "" && eff["PLUGIN_UNIX_SOCKET_GROUP"] != c.Host.Group {
 			bad("socket group %q, configured %q", eff["PLUGIN_UNIX_SOCKET_GROUP"], c.Host.Group)
 		}
-		cmdLaunch := strings.Contains(c.Name, "launch=cmd ")
+		cmdLaunch := strings.Contains(c.Name, "launch=cmd ") || strings.Contains(c.Name, "launch=cmdenv ")
 		if !cmdLaunch && (eff["PLUGIN_UNIX_SOCKET_DIR"] != r.SocketDir || r.SocketDir == "") {
 			// (a command launch creates no per-plugin socket directory)
 			bad("socket dir %q, the client's is %q", eff["PLUGIN_UNIX_SOCKET_DIR"], r.SocketDir)
 		}
 		if c.Host.SkipHostEnv {
 			for _, k := range []string{"UNRELATED_MARKER", "VERIF_HOST_MARKER", "HOME", "PATH"} {
+				if k == "UNRELATED_MARKER" && c.Host.AmbientInCmd {
+					continue // put into Cmd.Env by the caller: not a host variable
+				}
 				if _, ok := eff[k]; ok {
 					bad("SkipHostEnv: host variable %s was passed", k)
 				}
